@@ -51,12 +51,14 @@ Definition E_raw := err_shape "org.example.Raw"
   [ ("Typed", KStruct, [("type", str, FPlain); ("count", u32, FPlain)]);
     ("Matched", KStruct, [("match", i32, FPlain); ("ref", SOption bstr, FPlain)]);
     ("Loop", derive_unit, []);
-    ("Renamed", KStruct, [("in", SBool, FPlain)]) ].
+    ("Renamed", KStruct, [("in", SBool, FPlain)]);
+    ("Hollow", derive_unit, []) ].   (* declared `Hollow {}`: a struct variant without fields *)
 Definition E_raw_asis := err_shape "org.example.Raw"
   [ ("Typed", KStruct, [("r#type", str, FPlain); ("count", u32, FPlain)]);
     ("Matched", KStruct, [("match", i32, FPlain); ("r#ref", SOption bstr, FPlain)]);
     ("Loop", derive_unit, []);
-    ("Renamed", KStruct, [("in", SBool, FPlain)]) ].
+    ("Renamed", KStruct, [("in", SBool, FPlain)]);
+    ("Hollow", derive_unit, []) ].   (* declared `Hollow {}`: a struct variant without fields *)
 
 (* method types: serde's adjacently tagged derive (unit variants stay serde's) *)
 Definition M_meth := SAdj "method" "parameters"
